@@ -125,6 +125,16 @@ struct NothrowAll {
 struct ExplicitDefault {
     explicit ExplicitDefault() = default;
 };
+// aggregates whose member has an explicit default constructor: T() and `new T` are fine, T{} is not (copy-list-
+// initialisation of the member from {}), so is_default_constructible is true and default_initializable is false
+// (added after seeded breakage c15_default_initializable_drops_brace_init)
+struct AggOfExplicit {
+    ExplicitDefault m;
+};
+struct AggOfAggOfExplicit {
+    int i;
+    AggOfExplicit inner;
+};
 struct ExplicitCopy {
     ExplicitCopy() = default;
     explicit ExplicitCopy(ExplicitCopy const&) = default;
